@@ -1,6 +1,7 @@
 package main
 
 import (
+	"go/ast"
 	"fmt"
 	"go/token"
 	"go/types"
@@ -22,6 +23,47 @@ type ModSet struct {
 	alloc   bool
 	// regionBases: base pointers of region-style targets (elems(s), region(p)), for checks
 	regionBases []Term
+	// map updates through a field whose holder is known before the havocked code
+	deferredMaps []deferredMap
+}
+
+type deferredMap struct {
+	fa     *ssa.FieldAddr
+	dn, vn string
+}
+
+// loadedField: v is `*(&x.f)`.
+func loadedField(v ssa.Value) *ssa.FieldAddr {
+	if u, ok := v.(*ssa.UnOp); ok && u.Op == token.MUL {
+		if fa, ok := u.X.(*ssa.FieldAddr); ok {
+			return fa
+		}
+	}
+	return nil
+}
+
+// resolveDeferredMaps turns the deferred map updates into precise locations when the field
+// holding the map is not written by the havocked code, and into whole-heap havoc otherwise.
+func (fr *Frame) resolveDeferredMaps(m *ModSet, st *State) {
+	c := fr.c
+	hp := heapName(SPtr)
+	for _, d := range m.deferredMaps {
+		stT := d.fa.X.Type().Underlying().(*types.Pointer).Elem()
+		fid := c.V.fieldID(stT, d.fa.Field)
+		stable := !m.all && !m.heapAll[hp] && !m.fields[hp][fid] && len(m.locs[hp]) == 0 && len(m.regions[hp]) == 0
+		if stable {
+			mt := stT.Underlying().(*types.Struct).Field(d.fa.Field).Type()
+			mp := c.load(st, c.fieldPtr(fr.val(d.fa.X), stT, d.fa.Field), mt)
+			m.locs[d.dn] = append(m.locs[d.dn], mp)
+			m.locs[d.vn] = append(m.locs[d.vn], mp)
+			m.locs["ML"] = append(m.locs["ML"], mp)
+		} else {
+			m.heapAll[d.dn] = true
+			m.heapAll[d.vn] = true
+			m.heapAll["ML"] = true
+		}
+	}
+	m.deferredMaps = nil
 }
 
 func newModSet() *ModSet {
@@ -198,9 +240,21 @@ func (fr *Frame) collectWrites(blocks []*ssa.BasicBlock, m *ModSet, avail func(s
 				c.heapSort[dn] = df
 				c.heapSort[vn] = vf
 				c.heapSort["ML"] = "(Array Ptr Int)"
-				m.heapAll[dn] = true
-				m.heapAll[vn] = true
-				m.heapAll["ML"] = true
+				if avail(x.Map) && depth == 0 {
+					// the map written is fixed before the havocked code starts: only its cells
+					mp := fr.val(x.Map)
+					m.locs[dn] = append(m.locs[dn], mp)
+					m.locs[vn] = append(m.locs[vn], mp)
+					m.locs["ML"] = append(m.locs["ML"], mp)
+				} else if fa := loadedField(x.Map); fa != nil && depth == 0 && avail(fa.X) {
+					// the map is read from a field of an object known before the havocked code:
+					// precise if that field is not itself written there (decided afterwards)
+					m.deferredMaps = append(m.deferredMaps, deferredMap{fa: fa, dn: dn, vn: vn})
+				} else {
+					m.heapAll[dn] = true
+					m.heapAll[vn] = true
+					m.heapAll["ML"] = true
+				}
 			case *ssa.Range:
 				m.alloc = true
 			case *ssa.Next:
@@ -720,6 +774,7 @@ func (fr *Frame) enterLoop(li *loopInfo, phiEntry map[*ssa.Phi]Term) {
 		return false
 	}
 	fr.collectWrites(blocks, m, avail, 0, map[*ssa.Function]bool{})
+	fr.resolveDeferredMaps(m, fr.st)
 	if li.lc != nil {
 		for _, cl := range li.lc.Modifies {
 			if g, ok := cl.E.(EGhost); ok {
@@ -995,6 +1050,14 @@ func (fr *Frame) lookupLocalAt(name string, b *ssa.BasicBlock, get func(*ssa.Phi
 							}
 							return Binding{c.load(st, fr.val(dr.X), pt.Elem()), pt.Elem()}, true
 						}
+						if v := fr.defPlaceholder(dr); v != nil {
+							// `x := T{...}` / `x := make(...)`: go/ssa records the definition of
+							// x with a nil placeholder; the value is that of the right-hand side
+							if t, ok := fr.tryVal(v); ok {
+								return Binding{t, v.Type()}, true
+							}
+							continue
+						}
 						if t, ok := fr.tryVal(dr.X); ok {
 							return Binding{t, dr.X.Type()}, true
 						}
@@ -1032,6 +1095,57 @@ func (fr *Frame) lookupLocalAt(name string, b *ssa.BasicBlock, get func(*ssa.Phi
 		}
 	}
 	return Binding{}, false
+}
+
+// defPlaceholder: for the debug ref of the defining identifier of `x := <composite literal>`
+// whose recorded value is a nil constant, the value debug-referenced for the right-hand side.
+func (fr *Frame) defPlaceholder(dr *ssa.DebugRef) ssa.Value {
+	cst, ok := dr.X.(*ssa.Const)
+	if !ok || cst.Value != nil {
+		return nil
+	}
+	id, ok := dr.Expr.(*ast.Ident)
+	obj := dr.Object()
+	if !ok || obj == nil || id.Pos() != obj.Pos() {
+		return nil
+	}
+	syn := fr.fn.Syntax()
+	for f := fr.fn; syn == nil && f != nil; f = f.Parent() {
+		syn = f.Syntax()
+	}
+	if syn == nil {
+		return nil
+	}
+	var rhs ast.Expr
+	ast.Inspect(syn, func(n ast.Node) bool {
+		if as, ok := n.(*ast.AssignStmt); ok && len(as.Lhs) == len(as.Rhs) {
+			for i, l := range as.Lhs {
+				if l == ast.Expr(id) {
+					rhs = as.Rhs[i]
+				}
+			}
+		}
+		if vs, ok := n.(*ast.ValueSpec); ok && len(vs.Names) == len(vs.Values) {
+			for i, l := range vs.Names {
+				if l == id {
+					rhs = vs.Values[i]
+				}
+			}
+		}
+		return rhs == nil
+	})
+	if rhs == nil {
+		return nil
+	}
+	rhs = ast.Unparen(rhs)
+	for _, b := range fr.fn.Blocks {
+		for _, ins := range b.Instrs {
+			if d2, ok := ins.(*ssa.DebugRef); ok && !d2.IsAddr && d2.Expr == rhs {
+				return d2.X
+			}
+		}
+	}
+	return nil
 }
 
 func (fr *Frame) tryVal(v ssa.Value) (t Term, ok bool) {
